@@ -58,6 +58,10 @@ CLAIMED['C01'] = dict(engine='E5', technique='Coq proof about a hand model of th
     text='Partial. Proved: every element path admitted by the allow-list has one of the five README shapes (root, defs[0], gradient in defs, stop in gradient, chain of g/path), and a tree that passes the gate has only such paths, has /svg[0]/defs[0] and unique ids - topicosvg returns normally only through that gate. Not proved: attribute-level and path-data conditions (the gate does not check them); these are decided on every run by tools/pico.py applied to conversions of generated documents (library + CLI). One fix commit (groups left underfull / with opacity 0 by late shape removal).',
     note='Gate model validated on 600/12000 random trees (verdict and pruned tree identical); judge covers 260/6000 documents.',
     design='§7 C01')
+CLAIMED['C08'] = dict(engine='E5', technique='Coq proof about a hand model of the id/reference bookkeeping (_new_id, use instancing, stroke splitting, orphan removal, gate) tied to the code by a differential run; spec-side reference-graph checker on conversions of documents with heavily shared ids on every run',
+    text='Partial. Proved: _new_id returns the lowest free id (never one in use); any number of _resolve_use passes, and splitting a stroked shape, keep ids unique; _remove_orphaned_gradients keeps exactly the gradients some fill resolves to (none unused, none referenced removed); a normal return has unique ids (gate). The composition inside topicosvg (which references exist when each step runs) is decided on every run by tools/pico.check_refs on generated documents. One fix commit (gradient orphaned by an invisible sole user).',
+    note='Refs.v validated on 900/15000 cases over five mechanisms; judge covers 300/6000 documents with shared ids.',
+    design='§7 C08')
 PENDING = {}
 
 def main():
